@@ -133,6 +133,19 @@ def main():
             for t in itertools.product(ALPHABET, repeat=n):
                 srcs.append("".join(t))
     n_exh = len(srcs)
+    # every ASCII byte (all 128, control characters included) right after every kind of unfinished or finished lexeme: where
+    # a lexeme ends is decided per character, by table or bit trick, and the unusual bytes are where such code goes wrong
+    PREFIXES = ["0x", "0x1", "0xf", "0b", "0b1", "1", "12", "1_", "a", "ab", "x1", "1u", "1u8", "0x1u", "print", "print!",
+                "'", "'a", "'\\", "'\\x", "'\\x4", "'\\x41", "\"", "\"a", "\"\\", "\"\\x", "\"\\x4", "\"\\u", "\"\\u{",
+                "\"\\u{4", "\"\\u{41", "\"\\u{41}", "/", "//", "<", "-", "=", "!", "|", ".", ""]
+    for pre in PREFIXES:
+        for b in range(128):
+            ch = chr(b)
+            closing = "'" if pre.startswith("'") else ('"' if pre.startswith('"') else "")
+            srcs.append(pre + ch)
+            srcs.append(pre + ch + closing + " z")
+            if pre.startswith('"\\u{') and not pre.endswith("}"):
+                srcs.append(pre + ch + "}" + closing + " z")
     for _ in range(100000 if thorough else 6000):
         srcs.append(random_source(rng))
     for _ in range(30000 if thorough else 3000):
